@@ -82,6 +82,22 @@ Proof.
 Qed.
 Print Assumptions C18_flatten_bijection.
 
+(** rank 0 (shape ()): all the theorems here quantify over every shape, the empty one
+    included; spelled out: a 0-d real start is 1 real variable, a 0-d complex start 2, and the
+    value rebuilt from SciPy's length-1 / length-2 vector has shape [] again (not [1]) *)
+Theorem C18_rank0 :
+  forall (A : Type) (rnd : prec -> A -> A) (p : prec) (a b : A),
+    (nvars (false, p, SPlain []) = 1 /\
+     rebuild rnd (false, p, SPlain []) [a] = XR p (Plain (mkarr [] [rnd p a])) /\
+     flat_of (XR p (Plain (mkarr [] [a]))) = [a] /\
+     sig_of (rebuild rnd (false, p, SPlain []) [a]) = (false, p, SPlain [])) /\
+    (nvars (true, p, SPlain []) = 2 /\
+     rebuild rnd (true, p, SPlain []) [a; b] = XC p (Plain (mkarr [] [(rnd p a, rnd p b)])) /\
+     flat_of (XC p (Plain (mkarr [] [(a, b)]))) = [a; b] /\
+     sig_of (rebuild rnd (true, p, SPlain []) [a; b]) = (true, p, SPlain [])).
+Proof. exact (fun A rnd p a b => conj (rank0_real rnd p a) (rank0_complex rnd p a b)). Qed.
+Print Assumptions C18_rank0.
+
 (** the value returned has the container type (plain/block, real/complex), the dtype and
     the (nested) shape of x0 *)
 Theorem C18_result_signature :
